@@ -59,6 +59,19 @@ LEVEL_TEXTS = {
 }
 
 
+TECHNIQUES = {'C01': 'runtime monitoring: string-level reference model and byte-snapshot immutability monitor (incl. surrounding storage) on every observed call of the edit primitives over an exhaustively enumerated small scope and seeded batches',
+ 'C02': "runtime monitoring: composition / flank / one-hot invariants and seed-determinism differentials on every observed shuffle; replay-based exhaustive exploration of the dinucleotide walk's random choices with the kernel's transition counters hooked", 'C03': 'runtime monitoring: a recording model logs every forward event (example rows, argument rows, training and grad mode); the event log and the returned value are checked offline against a per-example loop',
+ 'C08': 'runtime monitoring: index-carrying exact-integer models and a capturing func observe the tensors that reach func; every output entry is compared with func on the explicitly constructed input its index denotes; call histories and injected func failures',
+ 'C09': 'runtime monitoring: exact-integer position-sensitive models; y0 / y_hat / attributions of every observed call compared with explicit per-mutant forward passes and the documented formula',
+ 'C10': 'runtime monitoring: capturing func records the tensors handed to func; compared with string-level editing over exhaustively enumerated variant lists; must-raise classes for lists that cannot be honoured',
+ 'C15': 'runtime monitoring: harness-owned encoder / decoder / slicing reference on every observed conversion over exhaustively enumerated strings, complement maps and chunk grids; numba encoder under bounds checking; call histories',
+ 'C16': 'runtime monitoring: every row returned by extract_loci / read_meme is compared with direct slicing of the generated genome, signals and MEME layouts, with an independent keep/omit list',
+ 'C17': 'runtime monitoring: every returned locus and every GC bin is judged against relations recomputed from the generated genome, signal and input loci; repetition, n_jobs and prior-call differentials',
+ 'C18': 'runtime monitoring: brute-force enumeration oracle for every cell of the count, pairwise, spacing and k-mer tables over enumerated small tables and seeded large ones in all accepted input forms',
+ 'C19': 'runtime monitoring: every returned seqlet row is re-derived from the input track (span, length, fsum attribution, p-value bound, order, suppression distance); recursive kernel under bounds checking; immutability monitor',
+ 'C20': 'runtime monitoring: the trace of applied substitutions is observed by wrapping design.substitute; every accepted step is compared with a brute-force minimum over all motifs and positions using exact rational losses'}
+
+
 LAYOUT_CHECKS = set("C01 C02 C03 C04 C05 C06 C08 C09 C10 C12 C15 C18 C19 "
 	"C20".split())
 
@@ -108,7 +121,8 @@ def main():
 				"arithmetic, and that the generated workload classes are "
 				"representative; nothing is claimed about inputs or schedules "
 				"that were not executed."),
-			"technique": getattr(mod, "TECHNIQUE", "runtime monitoring: "
+			"technique": getattr(mod, "TECHNIQUE", None) or TECHNIQUES.get(pid,
+				"runtime monitoring: "
 				"reference-model oracle at the API boundary over enumerated + "
 				"seeded workloads"),
 		})
